@@ -2,7 +2,9 @@
 The critical section of a `change` request, as a small-step system: which value reaches the driver when several threads
 (requests of other connections, the poller, other modules) work on the same parameter.
 
-Transcribed from `frappy/protocol/dispatcher.py` `_setParameterValue` (import the payload; then, inside
+Transcribed from `frappy/protocol/dispatcher.py` `handle_request` (`with self._lock`: ONE request per dispatcher at a time —
+the handler runs inside the lock; this is what entitles the sequential model of `Dispatch.lean` to treat a request as one
+atomic step), `_setParameterValue` (import the payload; then, inside
 `with moduleobj.accessLock`: `validate(value, previous=pobj.value)` — the merge of a partial struct into the cached value —
 and the call of the write wrapper) and `frappy/modulebase.py` 125-151 / 185-204 (read and write wrapper: the driver call
 and `announceUpdate`, which stores the new cached value, run inside `with self.accessLock`).
@@ -11,8 +13,10 @@ Threads: any number.  `merge` is a parameter of the system (the datatype's `vali
 the wrapper's own `validate`; `none` = the payload is refused): the theorems hold for every such function, the driver
 instantiates it with the datatype model of C01.
 
+  begin t        thread t starts handling a request (takes the dispatcher lock; no other request is being handled)
+  finish t       thread t has handled its request (the reply is made, the dispatcher lock released)
   acquire t      thread t takes `accessLock` (the lock is free)
-  merge t j      the holder of the lock merges the payload j of its request into the cached value of this moment;
+  merge t j      the holder of the lock, handling a request, merges the payload j into the cached value of this moment;
                  a refused payload leaves nothing behind (the section is left by `release`)
   call t         `write_<p>(v)` for a request: only by the holder of the lock, with the value merged in THIS critical section
   direct t       `write_<p>(v)` called by module code with a complete value of its own (not a request, nothing is merged)
@@ -23,6 +27,8 @@ instantiates it with the datatype model of C01.
 namespace Frappy.Node.ChangeSection
 
 inductive Act (J V : Type)
+  | begin (t : Nat)
+  | finish (t : Nat)
   | acquire (t : Nat)
   | merge (t : Nat) (j : J)
   | call (t : Nat)
@@ -40,6 +46,7 @@ structure Call (J V : Type) where
   deriving Repr
 
 structure CState (J V : Type) where
+  busy : Option Nat             -- who is handling a request (holds the dispatcher lock)
   owner : Option Nat            -- who holds `accessLock`
   cur : V                       -- the cached value of the parameter
   merged : Option (J × V)       -- payload and merged value of the current critical section
@@ -48,7 +55,7 @@ structure CState (J V : Type) where
 
 variable {J V : Type}
 
-def init (cur : V) : CState J V := ⟨none, cur, none, []⟩
+def init (cur : V) : CState J V := ⟨none, none, cur, none, []⟩
 
 def mergeNow (merge : J → V → Option V) (s : CState J V) (j : J) : Option (J × V) :=
   match merge j s.cur with
@@ -62,8 +69,10 @@ def doCall (s : CState J V) (t : Nat) : Option (CState J V) :=
 
 /-- `none`: the action is not possible in this state under the lock discipline -/
 def step (merge : J → V → Option V) (s : CState J V) : Act J V → Option (CState J V)
+  | .begin t => if s.busy = none then some { s with busy := some t } else none
+  | .finish t => if s.busy = some t then some { s with busy := none } else none
   | .acquire t => if s.owner = none then some { s with owner := some t, merged := none } else none
-  | .merge t j => if s.owner = some t then some { s with merged := mergeNow merge s j } else none
+  | .merge t j => if s.owner = some t ∧ s.busy = some t then some { s with merged := mergeNow merge s j } else none
   | .call t => if s.owner = some t then doCall s t else none
   | .direct t => if s.owner = some t then some s else none
   | .store t v => if s.owner = some t then some { s with cur := v, merged := none } else none
